@@ -81,6 +81,9 @@ func c13Alphabet() map[string]c13Msg {
 		{Name: "dD", Dels: []Path{P("if", e1, "descr")}},
 		{Name: "dM", Dels: []Path{P("sys", "mtu")}},
 		{Name: "dIf", Dels: []Path{P("if")}},
+		{Name: "dSD", Dels: []Path{P("if", e1, "oper-state"), P("if", e1, "descr")}},
+		{Name: "dDS", Dels: []Path{P("if", e1, "descr"), P("if", e1, "oper-state")}},
+		{Name: "uSD", Upds: []Leaf{leaf("up", "if", e1, "oper-state"), leaf("z", "if", e1, "descr")}},
 		{Name: "rE1", Dels: []Path{P("if", e1)}, Upds: []Leaf{leaf("n", "if", e1, "descr")}},
 		{Name: "START", Start: true},
 		{Name: "END", End: true},
@@ -102,72 +105,127 @@ func c13Preload() []Leaf {
 	}
 }
 
-// c13Ref is the reference model: two maps and the set of paths written since the last START.
+// c13Ref is the reference model: the two stores with the prune stamp of every entry (the index of the re-sync
+// cycle in which it was written last), as the cache keeps it.
+type c13Entry struct {
+	Val   string
+	Stamp int
+}
+
 type c13Ref struct {
 	u        *Universe
 	validate bool
-	Config   map[string]string
-	State    map[string]string
-	paths    map[string]*sdcpb.Path
+	Config   map[string]c13Entry
+	State    map[string]c13Entry
+	paths    map[string]*sdcpb.Path // shared, append only
+	cycle    int
 	inCycle  bool
-	touched  map[string]bool
+}
+
+// c13WOp is one atomic cache write of a notification: a delete of a subtree or the write of one leaf.
+type c13WOp struct {
+	Del  *Path
+	Leaf *Leaf
 }
 
 func newC13Ref(u *Universe, validate bool) *c13Ref {
-	r := &c13Ref{u: u, validate: validate, Config: map[string]string{}, State: map[string]string{}, paths: map[string]*sdcpb.Path{}, touched: map[string]bool{}}
+	r := &c13Ref{u: u, validate: validate, Config: map[string]c13Entry{}, State: map[string]c13Entry{}, paths: map[string]*sdcpb.Path{}}
 	for _, l := range c13Preload() {
-		r.write(l)
+		l := l
+		r.applyOp(c13WOp{Leaf: &l})
 	}
-	r.touched = map[string]bool{}
+	for _, l := range c13PreloadState() {
+		tv, _, err := u.typed(l)
+		if err != nil {
+			panic("harness: " + err.Error())
+		}
+		sp := l.P.Sdcpb()
+		r.paths[CanonPath(sp)] = sp
+		r.State[CanonPath(sp)] = c13Entry{Val: CanonTV(tv)}
+	}
 	return r
 }
 
-func (r *c13Ref) isState(p *sdcpb.Path) bool {
-	se, err := r.u.GetSchema(context.Background(), p)
-	if err != nil {
-		return false
+func (r *c13Ref) clone() *c13Ref {
+	n := *r
+	n.Config = make(map[string]c13Entry, len(r.Config))
+	for k, v := range r.Config {
+		n.Config[k] = v
 	}
-	switch s := se.Schema.(type) {
-	case *sdcpb.SchemaElem_Field:
-		return s.Field.IsState
-	case *sdcpb.SchemaElem_Leaflist:
-		return s.Leaflist.IsState
-	case *sdcpb.SchemaElem_Container:
-		return s.Container.IsState
+	n.State = make(map[string]c13Entry, len(r.State))
+	for k, v := range r.State {
+		n.State[k] = v
 	}
-	return false
+	return &n
 }
 
-func (r *c13Ref) write(l Leaf) {
+func (r *c13Ref) key() string {
+	var sb strings.Builder
+	for _, m := range []map[string]c13Entry{r.Config, r.State} {
+		ks := make([]string, 0, len(m))
+		for k := range m {
+			ks = append(ks, k)
+		}
+		sort.Strings(ks)
+		for _, k := range ks {
+			fmt.Fprintf(&sb, "%s=%s;", k, m[k].Val)
+		}
+		sb.WriteString("|")
+	}
+	return sb.String()
+}
+
+var c13StateCache = map[string]bool{}
+
+func (r *c13Ref) isState(p *sdcpb.Path) bool {
+	c := CanonPath(p)
+	if v, ok := c13StateCache[c]; ok {
+		return v
+	}
+	res := false
+	if se, err := r.u.GetSchema(context.Background(), p); err == nil {
+		switch s := se.Schema.(type) {
+		case *sdcpb.SchemaElem_Field:
+			res = s.Field.IsState
+		case *sdcpb.SchemaElem_Leaflist:
+			res = s.Leaflist.IsState
+		case *sdcpb.SchemaElem_Container:
+			res = s.Container.IsState
+		}
+	}
+	c13StateCache[c] = res
+	return res
+}
+
+var c13TypedCache = map[string]string{}
+
+func (r *c13Ref) canonValue(l Leaf) string {
+	k := l.P.String() + "\x00" + l.CanonValue()
+	if v, ok := c13TypedCache[k]; ok {
+		return v
+	}
 	tv, _, err := r.u.typed(l)
 	if err != nil {
 		panic("harness: " + err.Error())
 	}
-	sp := l.P.Sdcpb()
-	c := CanonPath(sp)
-	r.paths[c] = sp
-	if r.validate && r.isState(sp) {
-		r.State[c] = CanonTV(tv)
-		r.touched["S"+c] = true
+	c13TypedCache[k] = CanonTV(tv)
+	return c13TypedCache[k]
+}
+
+func (r *c13Ref) applyOp(o c13WOp) {
+	if o.Leaf != nil {
+		sp := o.Leaf.P.Sdcpb()
+		c := CanonPath(sp)
+		r.paths[c] = sp
+		e := c13Entry{Val: r.canonValue(*o.Leaf), Stamp: r.cycle}
+		if r.validate && r.isState(sp) {
+			r.State[c] = e
+		} else {
+			r.Config[c] = e
+		}
 		return
 	}
-	r.Config[c] = CanonTV(tv)
-	r.touched["C"+c] = true
-}
-
-// update writes the leaf and the key leaves of every list entry on its path.
-func (r *c13Ref) update(l Leaf) {
-	r.write(l)
-	for i, pe := range l.P {
-		for _, k := range pe.Keys {
-			kp := append(append(Path{}, l.P[:i+1]...), PE{Name: k[0]})
-			r.write(Leaf{P: kp, V: k[1]})
-		}
-	}
-}
-
-func (r *c13Ref) del(p Path) {
-	sp := p.Sdcpb()
+	sp := o.Del.Sdcpb()
 	m := r.Config
 	if r.validate && r.isState(sp) {
 		m = r.State
@@ -179,49 +237,223 @@ func (r *c13Ref) del(p Path) {
 	}
 }
 
-func (r *c13Ref) apply(m c13Msg) {
-	switch {
-	case m.Start:
-		r.inCycle = true
-		r.touched = map[string]bool{}
-		return
-	case m.End:
-		if !r.inCycle {
-			return
-		}
-		for c := range r.Config {
-			if !r.touched["C"+c] {
-				delete(r.Config, c)
-			}
-		}
-		for c := range r.State {
-			if !r.touched["S"+c] {
-				delete(r.State, c)
-			}
-		}
-		r.inCycle = false
+func (r *c13Ref) start() {
+	r.cycle++
+	r.inCycle = true
+}
+
+func (r *c13Ref) end() {
+	if !r.inCycle {
 		return
 	}
-	for _, d := range m.Dels {
-		r.del(d)
+	for _, m := range []map[string]c13Entry{r.Config, r.State} {
+		for c, e := range m {
+			if e.Stamp != r.cycle {
+				delete(m, c)
+			}
+		}
+	}
+	r.inCycle = false
+}
+
+// ops lists the atomic writes of a notification in the order storeSyncMsg issues them: deletes, then updates
+// (each followed by the key leaves of the list entries on its path).
+func c13Ops(m c13Msg) []c13WOp {
+	var ops []c13WOp
+	for i := range m.Dels {
+		ops = append(ops, c13WOp{Del: &m.Dels[i]})
+	}
+	upd := func(l Leaf) {
+		l2 := l
+		ops = append(ops, c13WOp{Leaf: &l2})
+		for i, pe := range l.P {
+			for _, k := range pe.Keys {
+				kp := append(append(Path{}, l.P[:i+1]...), PE{Name: k[0]})
+				ops = append(ops, c13WOp{Leaf: &Leaf{P: kp, V: k[1]}})
+			}
+		}
 	}
 	for _, l := range m.Upds {
-		r.update(l)
+		upd(l)
 	}
 	if m.JSON != nil {
 		for _, l := range m.JSON.Leaves {
-			r.update(l)
+			upd(l)
 		}
 	}
 	if m.LLKeys != nil {
-		r.update(Leaf{P: m.LLKeys.At, LL: m.LLKeys.Vals})
+		upd(Leaf{P: m.LLKeys.At, LL: m.LLKeys.Vals})
 	}
+	return ops
+}
+
+// inOrder applies the sequence as the device sent it.
+func (r *c13Ref) inOrder(seq []c13Msg) {
+	for _, m := range seq {
+		switch {
+		case m.Start:
+			r.start()
+		case m.End:
+			r.end()
+		default:
+			for _, o := range c13Ops(m) {
+				r.applyOp(o)
+			}
+		}
+	}
+}
+
+// c13Possible computes every final content reachable when the writes of different notifications overtake each
+// other the way the implementation permits with several write workers: the writes of one notification keep
+// their order and happen after the control message that precedes it; START is a barrier (it waits for the
+// writers in flight), END is executed at its place in the channel order but does not wait.
+func c13Possible(u *Universe, validate bool, seq []c13Msg, limit int) map[string]bool {
+	type notif struct {
+		dels      []c13WOp // in order
+		upds      []c13WOp // storeSyncMsg takes them from a map: any order, after the deletes
+		after     int      // index (in controls) of the last control message before it, -1 = none
+		beforeBar int      // index (in controls) of the next START after it, len(controls) = none
+	}
+	var controls []c13Msg
+	var ns []notif
+	for _, m := range seq {
+		if m.Start || m.End {
+			controls = append(controls, m)
+			continue
+		}
+		n := notif{after: len(controls) - 1}
+		for _, o := range c13Ops(m) {
+			if o.Del != nil {
+				n.dels = append(n.dels, o)
+			} else {
+				n.upds = append(n.upds, o)
+			}
+		}
+		ns = append(ns, n)
+	}
+	for i := range ns {
+		ns[i].beforeBar = len(controls)
+		for c := ns[i].after + 1; c < len(controls); c++ {
+			if controls[c].Start {
+				ns[i].beforeBar = c
+				break
+			}
+		}
+	}
+	res := map[string]bool{}
+	seen := map[string]bool{}
+	finished := func(n *notif, dp int, mask uint) bool { return dp == len(n.dels) && mask == (uint(1)<<len(n.upds))-1 }
+	var rec func(r *c13Ref, ctl int, dpos []int, masks []uint)
+	rec = func(r *c13Ref, ctl int, dpos []int, masks []uint) {
+		if len(res) >= limit || len(seen) >= 50*limit {
+			return
+		}
+		k := fmt.Sprintf("%d %v %v %d %v %s", ctl, dpos, masks, r.cycle, r.inCycle, r.stampKey())
+		if seen[k] {
+			return
+		}
+		seen[k] = true
+		done := ctl == len(controls)
+		for i := range ns {
+			if !finished(&ns[i], dpos[i], masks[i]) {
+				done = false
+			}
+		}
+		if done {
+			res[r.key()] = true
+			return
+		}
+		// the next control message may run if it is not a START that still has earlier writers in flight
+		if ctl < len(controls) {
+			ok := true
+			if controls[ctl].Start {
+				for i := range ns {
+					if ns[i].beforeBar == ctl && !finished(&ns[i], dpos[i], masks[i]) {
+						ok = false
+					}
+				}
+			}
+			if ok {
+				n := r.clone()
+				if controls[ctl].Start {
+					n.start()
+				} else {
+					n.end()
+				}
+				rec(n, ctl+1, dpos, masks)
+			}
+		}
+		for i := range ns {
+			if ns[i].after >= ctl {
+				continue
+			}
+			if dpos[i] < len(ns[i].dels) {
+				n := r.clone()
+				n.applyOp(ns[i].dels[dpos[i]])
+				np := append([]int{}, dpos...)
+				np[i]++
+				rec(n, ctl, np, masks)
+				continue
+			}
+			for u := range ns[i].upds {
+				if masks[i]&(1<<uint(u)) != 0 {
+					continue
+				}
+				n := r.clone()
+				n.applyOp(ns[i].upds[u])
+				nm := append([]uint{}, masks...)
+				nm[i] |= 1 << uint(u)
+				rec(n, ctl, dpos, nm)
+			}
+		}
+	}
+	rec(newC13Ref(u, validate), 0, make([]int, len(ns)), make([]uint, len(ns)))
+	return res
+}
+
+func (r *c13Ref) stampKey() string {
+	var sb strings.Builder
+	for _, m := range []map[string]c13Entry{r.Config, r.State} {
+		ks := make([]string, 0, len(m))
+		for k := range m {
+			ks = append(ks, k)
+		}
+		sort.Strings(ks)
+		for _, k := range ks {
+			fmt.Fprintf(&sb, "%s=%s@%d;", k, m[k].Val, m[k].Stamp)
+		}
+		sb.WriteString("|")
+	}
+	return sb.String()
+}
+
+func c13PreloadState() []Leaf {
+	return []Leaf{leaf("down", "if", e1, "oper-state")}
 }
 
 var c13Cache = NewWorkerCache()
 
 func c13Scenario(u *Universe, seq []string, workers int64, validate bool) verifrt.Scenario {
 	alpha := c13Alphabet()
+	var msgs []c13Msg
+	for _, n := range seq {
+		msgs = append(msgs, alpha[n])
+	}
+	var refCache *c13Ref
+	inOrderRef := func() *c13Ref {
+		if refCache == nil {
+			refCache = newC13Ref(u, validate)
+			refCache.inOrder(msgs)
+		}
+		return refCache
+	}
+	var possCache map[string]bool
+	possible := func() map[string]bool {
+		if possCache == nil {
+			possCache = c13Possible(u, validate, msgs, 200000)
+		}
+		return possCache
+	}
 	return func() ([]*verifrt.EnvEvent, func(), func(*verifrt.Result) (string, []string)) {
 		var w *World
 		fed := false
@@ -235,6 +467,9 @@ func c13Scenario(u *Universe, seq []string, workers int64, validate bool) verifr
 				panic("harness: " + err.Error())
 			}
 			if err := w.PreloadStore(cachepb.Store_CONFIG, c13Preload()); err != nil {
+				panic("harness: " + err.Error())
+			}
+			if err := w.PreloadStore(cachepb.Store_STATE, c13PreloadState()); err != nil {
 				panic("harness: " + err.Error())
 			}
 			// every cache write / prune call of the datastore is a scheduling point
@@ -281,10 +516,7 @@ func c13Scenario(u *Universe, seq []string, workers int64, validate bool) verifr
 			if len(res.Unfinished) > 0 {
 				viol = append(viol, "goroutines-left: "+strings.Join(res.Unfinished, "; "))
 			}
-			ref := newC13Ref(u, validate)
-			for _, n := range seq {
-				ref.apply(alpha[n])
-			}
+			ref := inOrderRef()
 			cfg, err := w.ReadStore(cachepb.Store_CONFIG)
 			if err != nil {
 				return "unreadable", append(viol, "store-unreadable: "+err.Error())
@@ -293,48 +525,55 @@ func c13Scenario(u *Universe, seq []string, workers int64, validate bool) verifr
 			if err != nil {
 				return "unreadable", append(viol, "store-unreadable: "+err.Error())
 			}
-			var stale, missing, wrong, misrouted []string
+			got := &c13Ref{Config: map[string]c13Entry{}, State: map[string]c13Entry{}}
 			for c, v := range cfg {
-				rv, ok := ref.Config[c]
-				switch {
-				case !ok:
-					if _, isSt := ref.State[c]; isSt {
-						misrouted = append(misrouted, c)
-					} else {
-						stale = append(stale, c+"="+v)
+				got.Config[c] = c13Entry{Val: v}
+			}
+			for c, v := range st {
+				got.State[c] = c13Entry{Val: v}
+			}
+			var stale, missing, wrong, misrouted []string
+			diff := func(tag string, have map[string]string, want map[string]c13Entry, other map[string]c13Entry) {
+				for c, v := range have {
+					rv, ok := want[c]
+					switch {
+					case !ok:
+						if _, isOther := other[c]; isOther {
+							misrouted = append(misrouted, tag+c)
+						} else {
+							stale = append(stale, tag+c+"="+v)
+						}
+					case rv.Val != v:
+						wrong = append(wrong, fmt.Sprintf("%s%s=%s (device last reported %s)", tag, c, v, rv.Val))
 					}
-				case rv != v:
-					wrong = append(wrong, fmt.Sprintf("%s=%s (device last reported %s)", c, v, rv))
+				}
+				for c := range want {
+					if _, ok := have[c]; !ok {
+						missing = append(missing, tag+c)
+					}
 				}
 			}
-			for c := range ref.Config {
-				if _, ok := cfg[c]; !ok {
-					missing = append(missing, c)
-				}
-			}
-			for c, rv := range ref.State {
-				v, ok := st[c]
-				switch {
-				case !ok:
-					missing = append(missing, "STATE:"+c)
-				case v != rv:
-					wrong = append(wrong, fmt.Sprintf("STATE:%s=%s (device last reported %s)", c, v, rv))
-				}
-			}
+			diff("", cfg, ref.Config, ref.State)
+			diff("STATE:", st, ref.State, ref.Config)
 			for _, l := range [][]string{stale, missing, wrong, misrouted} {
 				sort.Strings(l)
 			}
+			// with several write workers: is the difference explained by notifications overtaking each other?
+			pre := ""
+			if workers > 1 && got.key() != ref.key() && possible()[got.key()] {
+				pre = "overtaken-"
+			}
 			if len(stale) > 0 {
-				viol = append(viol, "stale-entry: the running store holds paths the device no longer reports: "+strings.Join(stale, ", "))
+				viol = append(viol, pre+"stale-entry: the running store holds paths the device no longer reports: "+strings.Join(stale, ", "))
 			}
 			if len(missing) > 0 {
-				viol = append(viol, "missing-entry: the running store lacks paths the device last reported: "+strings.Join(missing, ", "))
+				viol = append(viol, pre+"missing-entry: the running store lacks paths the device last reported: "+strings.Join(missing, ", "))
 			}
 			if len(wrong) > 0 {
-				viol = append(viol, "not-latest: "+strings.Join(wrong, ", "))
+				viol = append(viol, pre+"not-latest: "+strings.Join(wrong, ", "))
 			}
 			if len(misrouted) > 0 {
-				viol = append(viol, "state-in-config-store: "+strings.Join(misrouted, ", "))
+				viol = append(viol, pre+"wrong-store: "+strings.Join(misrouted, ", "))
 			}
 			out := "mirror"
 			if len(viol) > 0 {
@@ -347,7 +586,7 @@ func c13Scenario(u *Universe, seq []string, workers int64, validate bool) verifr
 }
 
 func c13Sequences() [][]string {
-	all := []string{"uA", "uB", "uX", "uM", "uS", "uJ", "uK", "uL", "uIfx", "dE1", "dD", "dM", "dIf", "rE1"}
+	all := []string{"uA", "uB", "uX", "uM", "uS", "uJ", "uK", "uL", "uIfx", "dE1", "dD", "dM", "dIf", "rE1", "dSD", "dDS", "uSD"}
 	var seqs [][]string
 	maxLen := 2
 	if Tier() == "thorough" {
@@ -404,7 +643,7 @@ func c13Scenarios(u *Universe) []schedScenario {
 	for _, seq := range c13Sequences() {
 		hasState := false
 		for _, s := range seq {
-			if s == "uS" || s == "uJ" {
+			if s == "uS" || s == "uJ" || s == "dSD" || s == "dDS" || s == "uSD" {
 				hasState = true
 			}
 		}
